@@ -170,7 +170,8 @@ mod k {
     #[kani::proof]
     #[kani::unwind(3)]
     fn c05_ratelimiter_bucket_index_in_bounds() {
-        let lim = LimiterShim(std::array::from_fn(|_| CellBucket(std::cell::RefCell::new(bucket::GenericTokenBucket::new()))));
+        // const-repeat initialiser: the 256 buckets (the real array length) are built without a run-time loop
+        let lim = LimiterShim([const { CellBucket(std::cell::RefCell::new(bucket::GenericTokenBucket::new())) }; 256]);
         unsafe {
             H1 = kani::any();
             H2 = kani::any();
